@@ -36,33 +36,38 @@ inductive Op where
   | count
 deriving Repr, DecidableEq
 
-/-- `countFromVoted`: the result of the recount decides; NOT YET emits nothing -/
-def countRec (S : List Nat) (t10 : Nat) (order : List String → List String) (r : Rec) : Rec :=
+/-- `countFromVoted`: the result of the recount decides; NOT YET emits nothing.  `empty f` says that `f` is an
+    empty-proposal (INIT) or empty-operations (ACCEPT) ballot fact: `baseVoteproof.SetMajority` does not set such
+    a fact as the majority, so the voteproof that is finished reads DRAW -/
+def countRec (empty : String → Bool) (S : List Nat) (t10 : Nat) (order : List String → List String) (r : Rec) : Rec :=
   if r.finished || r.voted.isEmpty then r
   else
     let facts := r.voted.map (·.2)
     match findVoteResult S.length (required S.length t10) facts (order facts) with
-    | .majority f => { r with emitted := r.emitted ++ [{ votes := r.voted, expels := [], majority := some f }], finished := true }
+    | .majority f => { r with emitted := r.emitted ++ [{ votes := r.voted, expels := [], majority := if empty f then none else some f }], finished := true }
     | .draw => { r with emitted := r.emitted ++ [{ votes := r.voted, expels := [], majority := none }], finished := true }
     | .notYet => r
 
 /-- one atomic step; a vote is counted at once (the deferred count of `Ballotbox.vote`) -/
-def step (keyChecked : Bool) (S : List Nat) (t10 : Nat) (order : List String → List String) (r : Rec) : Op → Rec
+def step (empty : String → Bool) (keyChecked : Bool) (S : List Nat) (t10 : Nat) (order : List String → List String) (r : Rec) : Op → Rec
   | .vote signer fact =>
     if r.finished then r
     else if !S.contains (addrOf signer) then r                              -- checkBallot: address not in the suffrage
     else if (r.voted.map (fun v => addrOf v.1)).contains (addrOf signer) then r   -- isVoted
     else if keyChecked && !S.contains signer then r                          -- the signer's key is not the node's
-    else countRec S t10 order { r with voted := r.voted ++ [(signer, fact)] }
+    else countRec empty S t10 order { r with voted := r.voted ++ [(signer, fact)] }
   | .voteSF signer fact =>
     if r.finished then r
     else if (r.voted.map (fun v => addrOf v.1)).contains (addrOf signer) then r
     else if keyChecked && !S.contains signer then r
-    else countRec S t10 order { r with voted := r.voted ++ [(signer, fact)] }
-  | .count => countRec S t10 order r
+    else countRec empty S t10 order { r with voted := r.voted ++ [(signer, fact)] }
+  | .count => countRec empty S t10 order r
 
-def run (keyChecked : Bool) (S : List Nat) (t10 : Nat) (order : List String → List String) (r : Rec) : List Op → Rec
+def run (empty : String → Bool) (keyChecked : Bool) (S : List Nat) (t10 : Nat) (order : List String → List String) (r : Rec) : List Op → Rec
   | [] => r
-  | o :: os => run keyChecked S t10 order (step keyChecked S t10 order r o) os
+  | o :: os => run empty keyChecked S t10 order (step empty keyChecked S t10 order r o) os
+
+/-- no empty-proposal facts in play -/
+def noEmpty : String → Bool := fun _ => false
 
 end Mitum.BallotCount
